@@ -476,6 +476,14 @@ func execInBubble(prop string, p *sim.Plan, res *sim.Result) {
 			b := r.pool.ProcessTransactions(txs, s.Leader, s.Local)
 			synctest.Wait()
 			for _, mt := range adm {
+				if prev, ok := m.byHash[mt.hash]; ok && (prev.status == "superseded" || prev.status == "evicted") && r.pool.GetTransaction(mt.tx.GetHash()) == nil {
+					// a transaction that was in the pool before and left it without being committed (superseded by a
+					// conflicting one, or evicted): whether the entry filter takes it again is not specified (the pool
+					// keeps the hash of a superseded transaction and treats the re-submission as a duplicate), so
+					// admission is read off the pool itself for these
+					res.Count("diag_resubmission_of_superseded_or_evicted_tx_not_taken")
+					continue
+				}
 				if old, ok := m.present[mt.a][mt.n]; ok && old.hash != mt.hash {
 					if old.batched {
 						// the older tx is already on its way through consensus: the newcomer is the one that loses
